@@ -473,16 +473,28 @@ func runC07(c *Cfg) {
 	// a continue-mode batch run from inside the items of a STOP-mode batch: its failing item prevents nothing — neither
 	// its own siblings nor (the inner run succeeds) anything in the surrounding batch
 	for _, oc := range []int{0, 1, 2} {
-		for _, ic := range []int{0, 1, 3} {
+		for _, ic := range []int{0, 1, 2, 3} {
 			for _, n := range []int{4, 7} {
 				for f := 0; f < n; f += 2 {
 					if !c.Mine(oc + ic + n + f) {
 						continue
 					}
-					ex, errSlots, outerOK, outerErr := nestedContinueRun(oc, ic, n, f)
+					var ex [][]int
+					var errSlots []int
+					var outerOK int
+					var outerErr error
+					dead, incon := runOrDeadlock(func() { ex, errSlots, outerOK, outerErr = nestedContinueRun(oc, ic, n, f) })
 					r.Eval()
 					r.Count("nested_continue.runs", 1)
 					nc := map[string]any{"family": "continue-batch-inside-stop-batch", "outer_c": oc, "inner_c": ic, "n": n, "fail_at": f}
+					if incon != "" {
+						r.Incon(incon)
+						continue
+					}
+					if dead {
+						r.Violate("C07", "C07:nested-batches-never-finish", fmt.Sprintf("a continue-mode batch (concurrency %d, %d items) run from every item of a batch with concurrency %d: nothing moves any more and the run has not returned — the inner items are never processed", ic, n, oc), nc)
+						continue
+					}
 					for o, items := range ex {
 						if len(items) != n {
 							r.Violate("C07", "C07:nested-continue-batch-items-skipped", fmt.Sprintf("a continue-mode batch (concurrency %d, %d items, item %d fails) run from item %d of a stop-mode batch (concurrency %d): %d of its %d items were executed (%v) — a failing item never prevents another item's processing", ic, n, f, o, oc, len(items), n, items), nc)
@@ -737,6 +749,9 @@ func runC02Batch(c *Cfg) {
 		cs.CtxLike = rg.IntN(4) == 0
 		if i%9 == 4 && cs.Build != "compose" {
 			cs.Shape, cs.ExecStyle = "results-with-errors", "result" // items that arrive as error Results get the same budget and fallback as any other item
+		}
+		if i%7 == 3 && cs.ExecStyle == "result" && !cs.CtxLike {
+			cs.ErrResult = true // a "failing" attempt hands back (NewErrorResult(e), nil): a nil error is a successful attempt — one attempt, no fallback
 		}
 		if i%5 == 1 && cs.Build != "compose" {
 			// the node ran before with another budget and was then re-configured (builder method / option on its BaseNode)
@@ -1096,7 +1111,15 @@ func runC09(c *Cfg) {
 					if !c.Mine(oc + ic + n + f) {
 						continue
 					}
-					ex, sb := nestedStopRun(oc, ic, n, f)
+					var ex [][]int
+					var sb int
+					if dead, incon := runOrDeadlock(func() { ex, sb = nestedStopRun(oc, ic, n, f) }); incon != "" {
+						r.Incon(incon)
+						continue
+					} else if dead {
+						r.Violate("C09", "C09:nested-batches-never-finish", fmt.Sprintf("a stop-mode batch (concurrency %d, %d items) run from every item of a batch with concurrency %d: nothing moves any more and the run has not returned", ic, n, oc), map[string]any{"family": "stop-batch-inside-continue-batch", "outer_c": oc, "inner_c": ic, "n": n, "fail_at": f})
+						continue
+					}
 					r.Eval()
 					r.Count("nested_stop.runs", 1)
 					nc := map[string]any{"family": "stop-batch-inside-continue-batch", "outer_c": oc, "inner_c": ic, "n": n, "fail_at": f}
